@@ -80,8 +80,12 @@ def validname(ctx):
             # failed validation leaves the function (the `?` err successor)
             from cfg import block_dominators, natural_loops
             dom = block_dominators(f)
+            # ... and it walks the WHOLE collection: an iteration narrowed by take/skip/filter/a sub-slice validates
+            # only some of the names that are created afterwards
+            vp_ = " ".join(Prov(f).operand(a_) for a_ in c.term["args"])
+            narrowed = re.search(r"Iterator::(take|skip|step_by|filter|take_while|skip_while|nth)\(|split_at|split_first|split_last|chunks|Index<I>::index\(", vp_)
             for (h, body, _) in natural_loops(f):
-                if bb in body and site_node[1] not in body and h in dom.get(site_node[1], ()):
+                if bb in body and site_node[1] not in body and h in dom.get(site_node[1], ()) and not narrowed:
                     return c
         return None
 
